@@ -201,6 +201,7 @@ zLUMemInit(fact_t fact, void *work, int_t lwork, int m, int n, int_t annz,
     doublecomplex   *ucol;
     int_t    *usub, *xusub;
     int_t    nzlmax, nzumax, nzlumax;
+    int_t    used0 = 0, top10 = 0; /* USER model: stack state before L\U arrays */
     
     iword     = sizeof(int);
     dword     = sizeof(doublecomplex);
@@ -242,6 +243,12 @@ zLUMemInit(fact_t fact, void *work, int_t lwork, int m, int n, int_t annz,
 	    xlsub  = zuser_malloc((n+1) * iword, HEAD, Glu);
 	    xlusup = zuser_malloc((n+1) * iword, HEAD, Glu);
 	    xusub  = zuser_malloc((n+1) * iword, HEAD, Glu);
+	    if ( !xsup || !supno || !xlsub || !xlusup || !xusub ) {
+		/* work[] cannot even hold the pointer arrays */
+		return (zmemory_usage(nzlmax, nzumax, nzlumax, n) + n);
+	    }
+	    used0 = Glu->stack.used;
+	    top10 = Glu->stack.top1;
 	}
 
 	lusup = (doublecomplex *) zexpand( &nzlumax, LUSUP, 0, 0, Glu );
@@ -256,8 +263,10 @@ zLUMemInit(fact_t fact, void *work, int_t lwork, int m, int n, int_t annz,
 		SUPERLU_FREE(lsub); 
 		SUPERLU_FREE(usub);
 	    } else {
-		zuser_free((nzlumax+nzumax)*dword+(nzlmax+nzumax)*iword,
-                            HEAD, Glu);
+		/* Release whatever part of the four arrays was obtained,
+		   including any alignment padding. */
+		Glu->stack.used = used0;
+		Glu->stack.top1 = top10;
 	    }
 	    nzlumax /= 2;
 	    nzumax /= 2;
